@@ -222,9 +222,55 @@ def run(check, repo: Repo) -> None:
     for label, s, c in rounders:
         check.decide(s == "round", "C02-R5", f"{label}: `{unparse(c)[:45]}` uses the common rounding of the scan positions", s, dmod.line(c),
                      fail_detail=f"`{unparse(c)[:50]}` uses {s} while other sites use {sorted(kinds - {s}) or kinds}: patch origin and sub-pixel remainder disagree by up to a pixel")
-    fr = [unparse(d) for d in definitions(dfw, "positions_px_fractional") if isinstance(d, ast.AST)]
-    check.decide(fr == ["positions_px - torch.round(positions_px)"], "C02-R5", "forward: sub-pixel remainder = position − round(position) of the same batch positions", str(fr), dmod.line(dfw),
-                 fail_detail=str(fr))
+    # sub-pixel remainder = position − R(position) with the SAME rounding R that places the patch (torch.round, half to even), looked at through
+    # subscripts, local names and property getters of the dataset model
+    frd = [d for d in definitions(dfw, "positions_px_fractional") if isinstance(d, ast.AST)]
+    if len(frd) != 1:
+        raise AnalysisError("forward: definition of the sub-pixel remainder not found")
+    dcls_q = DM + ":PtychographyDatasetBase"
+
+    def _resolve(e, fn, depth=0):
+        """strip subscripts, follow single-definition locals and property getters → (expression, function it lives in)"""
+        while depth < 8:
+            depth += 1
+            if isinstance(e, ast.Subscript):
+                e = e.value
+                continue
+            if isinstance(e, ast.Name):
+                dd = [d for d in definitions(fn, e.id) if isinstance(d, ast.AST)]
+                if len(dd) == 1:
+                    e = dd[0]
+                    continue
+            if isinstance(e, ast.Attribute) and dotted(e.value) == "self":
+                for q_ in (f"{DM}:PtychographyDatasetRaster.{e.attr}", f"{dcls_q}.{e.attr}"):
+                    if repo.has(q_):
+                        _m, g = repo.func(q_)
+                        rets_ = [r.value for r in ast.walk(g) if isinstance(r, ast.Return) and r.value is not None]
+                        if any("property" in unparse(d_) for d_ in g.decorator_list) and len(rets_) == 1 and not isinstance(rets_[0], ast.Attribute):
+                            e, fn = rets_[0], g
+                            break
+                else:
+                    return e, fn
+                continue
+            return e, fn
+        return e, fn
+    rem, rfn = _resolve(frd[0], dfw)
+    key_ = "forward: sub-pixel remainder = position − round(position) of the same batch positions"
+    if not (isinstance(rem, ast.BinOp) and isinstance(rem.op, ast.Sub) and isinstance(rem.right, ast.Call)):
+        raise AnalysisError(f"forward: sub-pixel remainder `{unparse(rem)[:60]}` is not of the form position − R(position)")
+    rshort = (call_name(rem.right) or "").split(".")[-1]
+    rarg = rem.right.args[0] if rem.right.args else None
+    lroot, _ = _resolve(rem.left, rfn)
+    aroot, _ = _resolve(rarg, rfn) if rarg is not None else (None, None)
+    same = lroot is not None and aroot is not None and unparse(lroot) == unparse(aroot)
+    if rshort == "round" and same:
+        check.holds("C02-R5", key_, unparse(rem)[:60], dmod.line(dfw))
+    elif rshort in ("round", "floor", "ceil", "trunc", "fix", "rint"):
+        check.violated("C02-R5", key_, f"remainder is `{unparse(rem)[:70]}`: " + ("the rounded quantity is not the position itself" if rshort == "round" else
+                       f"{rshort}(…) is not the rounding that places the patch (torch.round, half to even) — positions on a half pixel get a patch origin and a remainder that "
+                       f"belong to different pixels, the probe lands one pixel off"), dmod.line(frd[0]), definite=True)
+    else:
+        raise AnalysisError(f"forward: rounding `{rshort}` in the sub-pixel remainder not recognised")
     ft = unparse(dfw)
     ok = "if self.patch_indices_need_update():\n        self._set_patch_indices(obj_padding_px)" in ft.replace("    with torch.no_grad():\n    ", "") or \
         ("self.patch_indices_need_update()" in ft and "self._set_patch_indices(obj_padding_px)" in ft)
